@@ -90,6 +90,7 @@ func scIsolation(r *Run) {
 		return in
 	}
 	var wg sync.WaitGroup
+	lastHuge := "none"
 
 	classify := func(in *tubeInst, src *tubeInst) string {
 		switch {
@@ -167,7 +168,7 @@ func scIsolation(r *Run) {
 				}
 			}
 		}
-		buf := make([]byte, 40000)
+		buf := make([]byte, 140000)
 		for {
 			k, err := in.t.Read(buf)
 			if err != nil {
@@ -218,13 +219,27 @@ func scIsolation(r *Run) {
 			} else {
 				seq := in.nSent
 				in.nSent++
-				tail := make([]byte, r.Intn(key, 3000))
+				tailLen, huge := r.Intn(key, 3000), false
+				if r.Intn(key, 30) == 0 {
+					// messages around and beyond what one frame / one datagram can carry: they are delivered
+					// whole or not at all
+					tailLen = []int{30000 + r.Intn(key, 5000), 65000 + r.Intn(key, 535), 65536 + r.Intn(key, 33000), 131072 + r.Intn(key, 3000)}[r.Intn(key, 4)]
+					huge = true
+					r.CountFault("unreliable-message-near-or-over-limits", 1)
+					mu.Lock()
+					lastHuge = fmt.Sprintf("%d bytes written on unrel%d of %s at %v", cellLen+tailLen, in.id, in.mux, r.Now())
+					mu.Unlock()
+				}
+				tail := make([]byte, tailLen)
 				streamFill(tail, uint64(in.tag)<<32|seq|1<<63, 0)
 				msg := append(makeCell(in, seq), tail...)
 				mu.Lock()
 				in.sentLen[seq] = len(msg)
 				mu.Unlock()
 				if _, err := in.t.Write(msg); err != nil {
+					if huge {
+						continue // refused: fine
+					}
 					return
 				}
 			}
@@ -323,7 +338,22 @@ func scIsolation(r *Run) {
 			})
 		}
 	}
-	ow.Wait()
+	// the tubes of a session are isolated from each other also in this sense: nothing an application does on
+	// one tube (here: a message too long to be sent) may take the whole session down
+	if !WithTimeout(r, 30*time.Minute, func() { ow.Wait() }) || !tubes.VerifMuxerRunning(mp.A) || !tubes.VerifMuxerRunning(mp.B) {
+		r.NoLeakCheck = true
+		if !tubes.VerifMuxerRunning(mp.A) || !tubes.VerifMuxerRunning(mp.B) {
+			mu.Lock()
+			what := lastHuge
+			mu.Unlock()
+			r.Violate("C09/session-torn-down-by-one-tube", "a muxer stopped by itself while the programs were running (A running=%v, B running=%v): every tube of the session is gone; last message near or over the limits: %s",
+				tubes.VerifMuxerRunning(mp.A), tubes.VerifMuxerRunning(mp.B), what)
+		} else {
+			r.Probe("openers-still-busy-after-30-minutes")
+		}
+		mp.StopBoth(r, 2*time.Minute)
+		return
+	}
 	time.Sleep(c.LongDelay + c.ReplayMax + 3*time.Second)
 	mp.StopBoth(r, 2*time.Minute)
 	wd := make(chan struct{})
